@@ -101,7 +101,8 @@ Definition std_one_old (s : st) (rp : name * name) : st :=
              (snd rp) (if Rlt_dec (read s (fst rp)) 0 then read s (snd rp) + PI else read s (snd rp)).
 Definition standard_complex_old (s : st) : st := fold_left std_one_old (polar s) s.
 
-(* fcn.get_params() = vm.get_all_dic(): every variable;  minuit lists the trainable ones only *)
+(* fcn.get_params() = vm.get_all_dic(): every variable;  before the repair (patch_1 of the C08 hunt) the iminuit branch listed
+   the trainable ones only *)
 Definition get_params (s : st) : list (name * R) := map (fun n => (n, read s n)) (allnames s).
 Definition get_params_train (s : st) : list (name * R) := map (fun n => (n, read s n)) (train s).
 
@@ -132,14 +133,65 @@ Definition fit_newton (opt : oracle) (bd : list (name * bound)) (s : st) : st * 
   let s2 := set_trans_var s1 (fst xf) in
   let s3 := remove_bound s2 in
   (s3, mkRes (get_params s3) (snd xf)).
-(* iminuit: minimise in the physical variables with limits, write m.values back *)
+(* iminuit: minimise in the physical variables with limits, write m.values back; the result is fcn.get_params() as in the
+   other branches *)
 Definition fit_minuit (opt : oracle) (bd : list (name * bound)) (s : st) : st * result :=
+  let xf := opt s in
+  let s2 := set_all s (train s) (fst xf) in
+  (s2, mkRes (get_params s2) (snd xf)).
+(* the iminuit branch before the repair: FitResult(dict(zip(var_names, m.values)), ...) *)
+Definition fit_minuit_old (opt : oracle) (bd : list (name * bound)) (s : st) : st * result :=
   let xf := opt s in
   let s2 := set_all s (train s) (fst xf) in
   (s2, mkRes (get_params_train s2) (snd xf)).
 
+(* BFGS / CG stopped by the library's own guard (LargeNumberError raised in the callback -> except_result): the model stays at
+   the last evaluated point x (the oracle's answer here), the bounds are removed (patch_7 of the C08 hunt), the result is
+   vm.get_all_dic() and fcn.cached_nll *)
+Definition fit_except (opt : oracle) (bd : list (name * bound)) (s : st) : st * result :=
+  let s1 := set_bound s bd in
+  let xf := opt s1 in
+  let s2 := set_trans_var s1 (fst xf) in
+  let s3 := remove_bound s2 in
+  (s3, mkRes (get_params s3) (snd xf)).
+(* before the repair the early return left bnd_dic as set_bound had made it *)
+Definition fit_except_old (opt : oracle) (bd : list (name * bound)) (s : st) : st * result :=
+  let s1 := set_bound s bd in
+  let xf := opt s1 in
+  let s2 := set_trans_var s1 (fst xf) in
+  (s2, mkRes (get_params s2) (snd xf)).
+
 Definition fit (m : method) : oracle -> list (name * bound) -> st -> st * result :=
   match m with M_bfgs => fit_bfgs | M_lbfgsb => fit_lbfgsb | M_newton => fit_newton | M_minuit => fit_minuit end.
+
+(* fit.py _trainable_bounds (patch_6 of the C08 hunt): the bounds dictionary handed to fit_scipy is keyed by ANY name; tied names
+   share one variable of which only one name is listed in trainable_vars, so every entry is moved to the listed name of its
+   cell and entries meeting there are intersected.  Before the repair the dictionary was used as given: an entry on a name
+   that is not the listed one of its tie was never looked up. *)
+Definition head_of (s : st) (n : name) : name :=
+  fold_left (fun h t => if Nat.eqb (cellof s t) (cellof s n) then t else h) (train s) n.
+Definition lo_isect (l l0 : option R) : option R :=
+  match l, l0 with
+  | None, _ => l0
+  | Some a, None => Some a
+  | Some a, Some a0 => Some (if Rlt_dec a a0 then a0 else a)
+  end.
+Definition hi_isect (u u0 : option R) : option R :=
+  match u, u0 with
+  | None, _ => u0
+  | Some b, None => Some b
+  | Some b, Some b0 => Some (if Rlt_dec b0 b then b0 else b)
+  end.
+Definition norm_step (s : st) (acc : list (name * bound)) (nb : name * bound) : list (name * bound) :=
+  (head_of s (fst nb),
+   (lo_isect (fst (snd nb)) (fst (match lookup acc (head_of s (fst nb)) with Some b => b | None => (None, None) end)),
+    hi_isect (snd (snd nb)) (snd (match lookup acc (head_of s (fst nb)) with Some b => b | None => (None, None) end)))) :: acc.
+Definition norm_bounds (s : st) (bd : list (name * bound)) : list (name * bound) := fold_left (norm_step s) bd [].
+(* fit as ConfigLoader.fit reaches it: bound_dic as configured *)
+Definition fit_cfg (m : method) (opt : oracle) (bd : list (name * bound)) (s : st) : st * result :=
+  fit m opt (norm_bounds s bd) s.
+Definition fit_except_cfg (opt : oracle) (bd : list (name * bound)) (s : st) : st * result :=
+  fit_except opt (norm_bounds s bd) s.
 
 (* a session: several fits one after the other, each with its own optimiser answer *)
 Fixpoint fit_seq (l : list (method * oracle)) (bd : list (name * bound)) (s : st) : st :=
